@@ -137,6 +137,16 @@ def run(tier):
     ck.add_tlc(f"CacheAlias(-simulate num={nwalk} len={wlen})", states=sum(len(w["hist"]) + 1 for w in walks), transitions=sum(len(w["hist"]) for w in walks))
     for w in walks:
         histories.append((w["hist"], {len(w["hist"]) - 1: w}, "walk"))
+    # (d) directed behaviours Call(a,c); [Mutate(1)|Drop]; Call(b,c) for every pair of APIs reading the same object family: the abstract state graph
+    #     identifies handles that alias nothing, so its transitions do not name every API; these do
+    for c in cfgs:
+        for a in apis:
+            histories.append(([["call", a, c], ["mutate", 1, ""], ["call", a, c]], None, "directed"))
+            histories.append(([["call", a, c], ["call", a, c], ["mutate", 2, ""], ["call", a, c]], None, "directed"))
+        for a in apis:
+            for b in apis:
+                if a != b and (history.FILE_KIND[a] == history.FILE_KIND[b]):
+                    histories.append(([["call", a, c], ["mutate", 1, ""], ["call", b, c]], None, "directed"))
     core.dbg("histories", len(histories))
     # ---- replay into the real library (forked children with cold caches) ----------------------------------------------
     nserv = core.NCPU
@@ -161,6 +171,9 @@ def run(tier):
             loaded, dirty, pure, unchanged = observe(ob, ref, refcache)
             if pure is False or not unchanged:
                 bad = (i, "result differs from a fresh interpreter" if pure is False else "argument modified", ob.get("exc", ""))
+                break
+            if ob.get("stale"):
+                bad = (i, f"a result returned earlier (handle {ob['stale']}) was modified by this call although the caller never touched it", "")
                 break
             if exp and i in exp:
                 e = exp[i]
